@@ -83,7 +83,9 @@ def v_time(secs):
     return dt, {"t": "time", "neg": secs < 0, "limbs": limbs(abs(secs), 2)}
 
 
-def v_addr(fam, raw):
+def v_addr(fam, raw, text=None):
+    if text is not None:          # a specific textual form of the address (e.g. IPv6 with an embedded dotted quad, RFC 4291 2.2 form 3)
+        return text, {"t": "addr", "fam": fam, "b": list(raw)}
     if fam == 1:
         text = ".".join(str(x) for x in raw)
     elif fam == 2:
@@ -114,7 +116,11 @@ BOUNDS = {
     "time": [v_time(s) for s in (-61505152, -61505151, -1, 0, 1, 1700000000, 2085978495, 2085978496, 2085978497, 2085974895, 2085974896, 2085974897,
                                  2145916800, 4233462142, 4233462143)],
     "addr": [v_addr(1, [0, 0, 0, 0]), v_addr(1, [255, 255, 255, 255]), v_addr(1, [10, 0, 17, 5]), v_addr(2, [0] * 16), v_addr(2, [255] * 16),
-             v_addr(2, [0x20, 0x01, 0x0d, 0xb8] + [0] * 11 + [1]), v_addr(2, [0] * 10 + [255, 255, 1, 2, 3, 4]), v_addr(8, list(b"358401234567")), v_addr(8, list(b"1"))],
+             v_addr(2, [0x20, 0x01, 0x0d, 0xb8] + [0] * 11 + [1]), v_addr(2, [0] * 10 + [255, 255, 1, 2, 3, 4]), v_addr(8, list(b"358401234567")), v_addr(8, list(b"1")),
+             # RFC 4291 2.2 form 3: IPv6 text with an embedded dotted quad (mapped, compatible, NAT64) - what inet_ntop itself produces for these ranges
+             v_addr(2, [0] * 10 + [255, 255, 10, 40, 93, 32], "::ffff:10.40.93.32"), v_addr(2, [0] * 12 + [10, 0, 0, 1], "::10.0.0.1"),
+             v_addr(2, [0, 0x64, 0xff, 0x9b] + [0] * 8 + [192, 0, 2, 33], "64:ff9b::192.0.2.33"),
+             v_addr(2, [0x20, 0x01, 0x0d, 0xb8] + [0] * 8 + [1, 2, 3, 4], "2001:db8::1.2.3.4")],
     "utf8": [v_utf8(t) for t in ("", "a", "\x00", "\x7f", "\x80", "߿", "ࠀ", "￿", "\U00010000", "\U0010ffff", "héllo wörld € \U0001f600", "x" * 257)],
     "bytes": [v_bytes(bytes(range(n))) for n in (0, 1, 2, 3, 4, 5, 7, 8, 9)],
 }
@@ -202,7 +208,7 @@ def values_equal(kind, decoded, pv):
             return isinstance(decoded, float) and math.isnan(decoded)
         return decoded == pv and math.copysign(1, decoded) == math.copysign(1, pv)
     if kind == "addr":
-        fam = 1 if ("." in pv) else 2 if (":" in pv) else 8
+        fam = 2 if (":" in pv) else 1 if ("." in pv) else 8
         return addr_equal(decoded, fam, pv)
     return decoded == pv
 
